@@ -121,7 +121,7 @@ TraceReset ==
   /\ program' = SeqToSet(E.program)
   /\ mode' = [ci |-> FALSE, updvar |-> "unset", count |-> 1, run |-> ""]
   /\ ord' = <<>> /\ sord' = <<>> /\ sused' = <<>> /\ addrM' = {} /\ addrS' = {}
-  /\ usedF' = {} /\ visitedD' = {}
+  /\ usedF' = {} /\ visitedD' = {} /\ alias' = <<>>
   /\ cnt' = ZeroCnt /\ nskip' = 0 /\ ran' = {} /\ skipSet' = {} /\ fmtOf' = <<>>
   /\ stats' = Bump("histories")
   /\ UNCHANGED <<bad, drift, done>>
@@ -216,11 +216,17 @@ TraceMatch ==
          eff  == IF got = "malformed" THEN (IF exp = "any" THEN "failed" ELSE exp)
                  ELSE IF exp = "any" \/ exp = got THEN got ELSE exp
          sa   == Standalone(c)
-         p    == IF sa THEN CallSPath(c) ELSE CallPath(c)
-         hdr  == IF sa THEN "" ELSE CallHdr(c)
          f1   == IF E.hasfs THEN FS[l] ELSE fs
-         pm1  == IF E.hasfs THEN PARSED[l] ELSE pfs
          ch   == Changed(fs, f1)
+         \* K8: `%` in a path component of a standalone call; the ordinal substitution mangles the
+         \* name.  The contract then follows the one file the call wrote (see Contract!alias).
+         k8   == sa /\ (StrContains(c.test, "%") \/ StrContains(c.cfg.dir, "%") \/ StrContains(c.cfg.filename, "%"))
+         wrote == {q \in ch : q \in DOMAIN f1 /\ f1[q].kind = "file"}
+         p0   == IF sa THEN CallSPath(c) ELSE CallPath(c)
+         moved == k8 /\ E.hasfs /\ Cardinality(wrote) = 1 /\ p0 \notin wrote
+         p    == IF moved THEN CHOOSE q \in wrote : TRUE ELSE p0
+         hdr  == IF sa THEN "" ELSE CallHdr(c)
+         pm1  == IF E.hasfs THEN PARSED[l] ELSE pfs
          seen == IF sa THEN (IF IsFile(f1, p) THEN VL(FileOf(f1, p)) ELSE <<>>)
                  ELSE LET pr == PF(pm1, p) IN
                       IF hdr \in pr.hs THEN Unescape(BodyOf(pr, hdr)) ELSE <<>>
@@ -243,7 +249,7 @@ TraceMatch ==
                      /\ seen # fmtOf[c.val.vid]
                   THEN <<MM("format.unstable", "", "", st, p, hdr, c.val.vid)>> ELSE <<>>
      IN
-     /\ CMatch(c, eff, seen)
+     /\ CMatchAt(c, eff, seen, IF sa THEN p ELSE CallSPath(c))
      /\ fs' = f1 /\ pfs' = pm1
      /\ owner' = IF sa /\ Writes(eff) THEN Put(owner, p, c.test) ELSE owner
      /\ LET fsMM ==
@@ -272,8 +278,10 @@ TraceMatch ==
                               pre.entries[i].b[j] = hdr
             sigs == (IF k1 THEN "K1 " ELSE "") \o (IF k2 THEN "K2 " ELSE "")
             all == WithSig(outMM \o nameMM \o detMM \o lossMM \o fsMM, sigs)
+            \* the K8 divergence itself: reported (known finding), never a taint
+            locMM == IF moved THEN WithSig(<<MM("alone.location", p0, p, st, p, "", "")>>, "K8 ") ELSE <<>>
             pred == ImplPredict(fs, c, eff, hdr, p)
-        IN /\ bad' = Report(all)
+        IN /\ bad' = Report(all) \o (IF tainted = "" THEN locMM ELSE <<>>)
            /\ tainted' = Taint(all)
            /\ drift' = IF E.hasfs /\ ~sa /\ all = <<>> /\ tainted = "" /\ c.val.known
                           /\ (pred.lines # FileOf(f1, p).lines \/ (Writes(eff) /\ pred.nl # FileOf(f1, p).nl))
@@ -432,7 +440,7 @@ TraceInit ==
               clean_stale_entries |-> 0, clean_stale_files |-> 0, clean_protected |-> 0]
   /\ mode = [ci |-> FALSE, updvar |-> "unset", count |-> 1, run |-> ""]
   /\ slot = <<>> /\ order = <<>> /\ alone = <<>> /\ ord = <<>> /\ sord = <<>> /\ sused = <<>>
-  /\ addrM = {} /\ addrS = {} /\ usedF = {} /\ visitedD = {} /\ cnt = ZeroCnt /\ nskip = 0 /\ ran = {} /\ skipSet = {} /\ fmtOf = <<>>
+  /\ addrM = {} /\ addrS = {} /\ usedF = {} /\ visitedD = {} /\ alias = <<>> /\ cnt = ZeroCnt /\ nskip = 0 /\ ran = {} /\ skipSet = {} /\ fmtOf = <<>>
 
 TraceNext ==
   \/ TraceReset \/ TraceProc \/ TraceBegin \/ TraceEnd \/ TraceSkip \/ TraceNoArgs
